@@ -18,10 +18,11 @@ Layers (CONTRIBUTING.md):
 import copy
 import json
 
-from ctmverif import gen, levelloop_util as U
+from ctmverif import gen, levelloop_util as U, treeio
 
-RULE = ('unit: valid trees (depth 1-5, chains, single-node levels, parents '
-        'without children in the wild stream) x 0-9 cells (repeated vectors) x '
+RULE = ('unit: valid trees (depth 1-5, chains, single-node levels; trees with a '
+        'childless parent in the wild stream are now rejected by the validator '
+        'and only checked against wfb) x 0-9 cells (repeated vectors) x '
         'scripted votes (valid: a child of the parent; wild: sibling-stealing / '
         'other-level / unknown names, None correlations, invalid runner-ups); '
         'backfill: records missing one level / all but the leaf / random '
@@ -63,9 +64,32 @@ def script_from_list(lst):
     return out
 
 
+def validator_rejects(ctx, tree, stream):
+    """trees the real validator rejects are outside the property's
+    quantifier (since the fix for the childless-parent finding that includes a
+    non-leaf node without children); the model's wfb must reject them too"""
+    v = treeio.impl_validate(tree)
+    if v == 'ok':
+        return False
+    ctx.count('%s:validator-rejects:%s' % (stream, v.split(':')[0]))
+    if ctx.driver_ok:
+        canon = U.Canon(tree)
+        if ctx.model('levelloop.wf', {'tree': canon.tree_json()}):
+            ctx.violation(
+                '%s/model/wfb-accepts-rejected-tree' % ctx.prop,
+                'model: wfb holds on a tree the real validator rejects (%s)'
+                % v, {'kind': 'wfb', 'tree': tree, 'impl': v,
+                      'broken': 'hypothesis wfb ~ validate_taxonomy_tree'},
+                found_input=False)
+    return True
+
+
 def check_unit(ctx, tree, kappas, script, mode, prop='C01'):
     detail = {'kind': 'unit', 'tree': tree, 'kappas': list(kappas),
               'script': script_to_list(script), 'mode': mode}
+    if validator_rejects(ctx, tree, 'unit'):
+        ctx.case(None)
+        return True
     status, res, calls = U.impl_unit_loop(tree, kappas, script)
     nontriv = U.has_choice(tree) and len(kappas) >= 2
     ctx.case(json.dumps(detail, sort_keys=True, default=repr)
@@ -418,6 +442,9 @@ def error_class(msg):
 def check_e2e(ctx, problem, cfg, prop='C01', label='random'):
     detail = {'kind': 'e2e', 'problem': problem, 'config': cfg}
     tree = problem['tree']
+    if validator_rejects(ctx, tree, 'e2e'):
+        ctx.case(None)
+        return True
     r = U.run_problem(problem, cfg)
     nontriv = U.has_choice(tree) and len(problem['cell_ids']) >= 2
     ctx.case(json.dumps(detail, sort_keys=True) if nontriv else None,
